@@ -706,6 +706,10 @@ func (c *c30) tokens() []c30token {
 		c30token{"jsBadField", []byte(`{"_hint":"dummy-request-header-v1.2.3","id":5}`)},
 		c30token{"jsGarbage", []byte(`{{{"`)},
 		c30token{"hello", []byte("hello")},
+		// complete lengthed fields, so that whole heads fit into the depth bound
+		c30token{"lenc", append(c30u64(uint64(len(hintb))), hintb...)},
+		c30token{"lreq", append(c30u64(uint64(len(reqJS))), reqJS...)},
+		c30token{"lres", append(c30u64(uint64(len(resJS))), resJS...)},
 	)
 
 	return t
@@ -1146,6 +1150,10 @@ func (h *c30hostile) eval(seq []int, record bool) (extend bool) {
 
 		for _, d := range ds {
 			for _, ewd := range []bool{false, true} {
+				if ewd && ref.maxAlloc > 1<<20 {
+					continue // one delivery only for allocations above 1 MiB
+				}
+
 				id := fmt.Sprintf("hostile/%s/%s/%s/eofwd=%v", entry, name, d.name, ewd)
 				if record && !r.Want(id) {
 					continue
@@ -1213,7 +1221,7 @@ func TestVerifC30(t *testing.T) {
 	depth := vlib.Pick(r, 4, 5)
 
 	r.Rule("wf: every legal message sequence of <= maxMsgs messages per direction (client: request head of 3 header types then bodies; handler: response heads {ok, error} and bodies in any order; body kinds empty, fixed 0/1/5, stream 0/5; a stream body ends the direction) written by the real brokers and read by the peer's broker under: whole, every-1-byte, every-7-bytes, every single cut position, every pair of cuts at field boundaries (+-1 in thorough), x both EOF conventions. " +
-		"hostile: DFS over token sequences of <= depth tokens from a 27-token alphabet (type bytes valid x3 / invalid x2, 12 length fields incl. exact/exact+1/64MiB/2^31/2^64-1, encoder hint valid/unknown/garbage, header JSON request/response/null/not-a-header/bad-field/garbage, payload) fed to ReadRequestHead, ReadResponseHead and ReadBody, then ReadBody repeatedly with every body drained; a subtree is not expanded when no run reached the end of the stream (result cannot depend on the continuation) or when an announced length above 1 MiB makes every enumerable continuation fail alike. " +
+		"hostile: DFS over token sequences of <= depth tokens from a 30-token alphabet (type bytes valid x3 / invalid x2, 12 length fields incl. exact/exact+1/64MiB/2^31/2^64-1, encoder hint valid/unknown/garbage, header JSON request/response/null/not-a-header/bad-field/garbage, payload) fed to ReadRequestHead, ReadResponseHead and ReadBody, then ReadBody repeatedly with every body drained; a subtree is not expanded when no run reached the end of the stream (result cannot depend on the continuation) or when an announced length above 1 MiB makes every enumerable continuation fail alike. " +
 		"non-trivial = chunked delivery, or a first message that is not well-formed")
 	r.Assume("announced lengths above 64 MiB (1<<26) up to MaxInt32 are excluded: util.ReadLengthed allocates the announced length before reading (an out-of-memory abort is not a panic in the statement's sense); such sequences are counted in hostile_excluded_announced_over_64MiB")
 	r.Assume("QUIC transport, timeouts/cancellation and concurrent use of one broker are out of scope; readers returning (0,nil) are not enumerated")
